@@ -432,7 +432,11 @@ func (e *Engine) localModSet(f *ssa.Function) (*ModSet, map[*ssa.Function]bool) 
 					}
 				case *ssa.IndexAddr:
 					hn, hs := U.elemHeapT(elem)
-					ms.add(hn, hs, elem)
+					if _, isAlloc := a.X.(*ssa.Alloc); isAlloc {
+						ms.addFresh(hn, hs, elem) // element of an array allocated by this function
+					} else {
+						ms.add(hn, hs, elem)
+					}
 				case *ssa.Global:
 					ms.add("G|"+a.String(), U.sortOf(elem), elem)
 				case *ssa.Alloc:
@@ -487,6 +491,12 @@ func (e *Engine) localModSet(f *ssa.Function) (*ModSet, map[*ssa.Function]bool) 
 							switch t := a.Type().Underlying().(type) {
 							case *types.Slice:
 								hn, hs := U.elemHeapT(t.Elem())
+								if sl, ok := a.(*ssa.Slice); ok {
+									if _, isAlloc := sl.X.(*ssa.Alloc); isAlloc {
+										ms.addFresh(hn, hs, t.Elem()) // varargs array allocated by the caller itself
+										continue
+									}
+								}
 								ms.add(hn, hs, t.Elem())
 							case *types.Pointer:
 								if isStruct(t.Elem()) && e.inModuleType(t.Elem()) {
@@ -691,7 +701,7 @@ func (fc *FuncContract) serves(prop string) bool {
 		}
 		return false
 	}
-	if has(fc.Props) || has(fc.NoPanicProps) {
+	if has(fc.Props) || has(fc.NoPanicProps) || has(fc.RecoverGuardProps) {
 		return true
 	}
 	for _, c := range fc.Ensures {
